@@ -4,12 +4,18 @@
 #include "skinny64-cipher.h"
 #include "options.h"
 static int VX_TWSET;      /* the tweak currently in the schedule is the tool's current tweak value */
-#define VC_main __CPROVER_assigns(VX_TWSET) VEX_MAIN_CONTRACT(5, 1)
-#define VL_main_1 __CPROVER_assigns(VEX_MAIN_LOOP_ASSIGNS, posn, VX_TWSET, __CPROVER_object_upto(tweak, 16)) VEX_MAIN_LOOP_INV \
-    __CPROVER_loop_invariant(VX_KEYED && VX_TWSET == 1)
+/* which tweak each block gets: block number k of the FILE (not of the chunk) must be transformed under start tweak + k.
+   VX_NBLK counts the blocks transformed so far, VX_TWINC the increments of the tool's tweak, VX_TWAPPLIED the increment
+   count at the last set_tweak; a block call requires VX_TWAPPLIED == VX_NBLK. */
+static size_t VX_NBLK, VX_TWINC, VX_TWAPPLIED;
+#define VX_TWEAK_IN_STEP (VX_TWSET == 1 && VX_TWINC == VX_NBLK && VX_TWAPPLIED == VX_NBLK)
+#define VC_main __CPROVER_assigns(VX_TWSET, VX_NBLK, VX_TWINC, VX_TWAPPLIED) VEX_MAIN_CONTRACT(5, 1)
+#define VE_main VX_NBLK = 0; VX_TWINC = 0; VX_TWAPPLIED = 0;
+#define VL_main_1 __CPROVER_assigns(VEX_MAIN_LOOP_ASSIGNS, posn, VX_TWSET, VX_NBLK, VX_TWINC, VX_TWAPPLIED, __CPROVER_object_upto(tweak, 16)) VEX_MAIN_LOOP_INV \
+    __CPROVER_loop_invariant(VX_KEYED && VX_TWEAK_IN_STEP)
 #define VL_main_2 \
-    __CPROVER_assigns(posn, VF_XLEN, VF_XFORMED, VX_TWSET, __CPROVER_object_upto(tweak, 16)) \
-    __CPROVER_loop_invariant(posn == VF_XLEN && (posn % block_size) == 0 && posn <= read_size && VX_TWSET == 1) \
+    __CPROVER_assigns(posn, VF_XLEN, VF_XFORMED, VX_TWSET, VX_NBLK, VX_TWINC, VX_TWAPPLIED, __CPROVER_object_upto(tweak, 16)) \
+    __CPROVER_loop_invariant(posn == VF_XLEN && (posn % block_size) == 0 && posn <= read_size && VX_TWEAK_IN_STEP) \
     __CPROVER_loop_invariant(posn == 0 || VF_XFORMED == 1)
 /* increment_tweak(): functional contract (own job, loop unwound) and its role inside main */
 #ifdef VERIF_EX_INCREMENT
@@ -29,7 +35,7 @@ static vu128 VX_T0;
 #else
 #define VC_increment_tweak \
     __CPROVER_requires(tweak_size >= 1 && tweak_size <= 16) \
-    __CPROVER_assigns(__CPROVER_object_upto(tweak, 16), VX_TWSET) __CPROVER_ensures(VX_TWSET == 0)
+    __CPROVER_assigns(__CPROVER_object_upto(tweak, 16), VX_TWSET, VX_TWINC) __CPROVER_ensures(VX_TWSET == 0 && VX_TWINC == __CPROVER_old(VX_TWINC) + 1)
 #endif
 #include "verif_defaults.h"
 int parse_options(int argc, char *argv[], int flags) VC_parse_options_ROLE;
@@ -38,11 +44,12 @@ int parse_options(int argc, char *argv[], int flags) VC_parse_options_ROLE;
     __CPROVER_assigns(VX_OBJ##N, VX_KEYED) __CPROVER_ensures(VX_OBJ##N == (const void *)ks && VX_KEYED == 1 && __CPROVER_return_value == 1)
 #define VX_TW(N, B) \
     __CPROVER_requires((const void *)ks == VX_OBJ##N && VX_KEYED && block_size == (B) && tw == (const void *)tweak && size == tweak_size && size >= 1 && size <= (B)) \
-    __CPROVER_assigns(VX_TWSET) __CPROVER_ensures(VX_TWSET == 1 && __CPROVER_return_value == 1)
+    __CPROVER_assigns(VX_TWSET, VX_TWAPPLIED) __CPROVER_ensures(VX_TWSET == 1 && VX_TWAPPLIED == VX_TWINC && __CPROVER_return_value == 1)
 #define VX_BLK(N, B, D) \
     __CPROVER_requires((const void *)ks == VX_OBJ##N && VX_KEYED && VX_TWSET == 1 && block_size == (B) && (encrypt != 0) == (D)) \
+    __CPROVER_requires(VX_TWAPPLIED == VX_NBLK)   /* block k of the file under start tweak + k */ \
     __CPROVER_requires(output == (void *)((const uint8_t *)VF_BUF + VF_XLEN) && input == (const void *)((const uint8_t *)VF_BUF + VF_XLEN) && VF_XLEN + (B) <= VF_BUF_LEN) \
-    __CPROVER_assigns(VF_XLEN, VF_XFORMED) __CPROVER_ensures(VF_XLEN == __CPROVER_old(VF_XLEN) + (B) && VF_XFORMED == 1)
+    __CPROVER_assigns(VF_XLEN, VF_XFORMED, VX_NBLK) __CPROVER_ensures(VF_XLEN == __CPROVER_old(VF_XLEN) + (B) && VF_XFORMED == 1 && VX_NBLK == __CPROVER_old(VX_NBLK) + 1)
 int skinny128_set_tweaked_key(Skinny128TweakedKey_t *ks, const void *key_, unsigned size) VX_TK(128, 16);
 int skinny64_set_tweaked_key(Skinny64TweakedKey_t *ks, const void *key_, unsigned size) VX_TK(64, 8);
 int skinny128_set_tweak(Skinny128TweakedKey_t *ks, const void *tw, unsigned size) VX_TW(128, 16);
